@@ -218,7 +218,9 @@ def check(ctx):
         ctx.violation("R-C01.3", f"missing:{k1}", f"valid construct not accepted - {desc}: token sequence `{' '.join(sent)}` is derivable from the C99/C11 reference grammar but no path of the parser model consumes it",
                       file=px.rel, function="CParser (grammar model)", construct=" ".join(sent))
     root_start = {f for f, (nf, np_) in start_stats.items() if nf and not np_}
-    simple_fail = {(k1, k2.split(">")[0]) for k1, k2, _, _ in fails_pair if " && " not in k2}
+    simple_fail = {(k1, k2) for k1, k2, _, _ in fails_pair if " && " not in k2 and ">" not in k2}
+    # (parent variant, child variant) pairs that fail with nothing deeper involved, also usable inside longer chains
+    simple_fail2 = {(k1, k2) for k1, k2 in simple_fail} | {(a, b) for k1, k2, _, _ in fails_pair if " && " not in k2 and "^" not in k2 for a, b in [(k1, k2.split(">")[0])] if len(k2.split(">")) == 1}
     groups = {}
     for k1, k2, desc, sent in fails_pair:
         base2 = k2.split(">")[0]
@@ -234,9 +236,12 @@ def check(ctx):
         elif "^" in base2:
             gk = "start:" + base2
         else:
-            if base2 in fails_single:
+            chain = k2.split(">")
+            if any(c in fails_single for c in chain):
                 continue
-            gk = k1.split("/")[0] + "+" + base2
+            if len(chain) > 1 and ((k1, chain[0]) in simple_fail or any((a, b) in simple_fail2 for a, b in zip(chain, chain[1:]))):
+                continue
+            gk = (k1.split("/")[0] + "+" + chain[0]) if len(chain) == 1 else (chain[-2].split("/")[0] + "+" + chain[-1])
         cur = groups.get(gk)
         if cur is None or len(sent) < len(cur[1]):
             groups[gk] = (desc, sent, (cur[2] if cur else 0) + 1)
